@@ -11,6 +11,10 @@ R09b Pause does not overwrite an outstanding capture: the capture is guarded by 
 R09c ownership: _prev_state is written only by the command classes and Engine.__init__.
 R09d model check: in no reachable state did _apply_state restore a stale or safe-valued capture
      (shortest history printed otherwise).
+R09f capture slot: the value captured for a register is the tag's real `.value` - the slot set_value(safe value) overwrites and
+     _apply_state writes back - not a report of the tag (as_readonly / get_value return the simulation mask while simulated).
+R09g the captured state is taken out of Engine._prev_state before it is applied (the clear dominates the _apply_state call, or a
+     `finally` clears it): an Unpause whose _apply_state raises half-way must not leave the capture behind.
 R09e capture/restore completeness (verifies the call model the machine uses for _apply_safe_state/_apply_state):
      in Engine._apply_safe_state the loop ranges over every write register that has a safe value; on *every* path
      through its body the tag's pre-value (`tag.as_readonly()`) is appended to the captured list *before* the tag is
@@ -160,6 +164,37 @@ def run(ctx) -> None:
             ctx.fail("R09b", pause, n.ast, inst, "a Pause executed while already paused (two requests validated before either "
                      "ran, or a method Pause and a user Pause in one tick) captures the *safe* values: Unpause then restores "
                      "safe values instead of the outputs from before the pause")
+    # ---- R09g: the capture is taken out before it is applied
+    ctx.rule("R09g", "the captured state is cleared before (or whatever happens while) it is applied")
+    from ..model import parent_map
+    n_apply = 0
+    for f in funcs:
+        g = cfg_of(f)
+        for n in g.nodes:
+            for c in n.calls():
+                if call_attr(c) != "_apply_state" or not isinstance(c.func, ast.Attribute) or not is_engine(c.func.value, f):
+                    continue
+                n_apply += 1
+                ctx.analysed(f)
+                inst = f"{f.short}: _prev_state is cleared before `{norm(c)[:50]}` runs"
+                before = any(clears(x) and g.dominates(x, n) for x in g.nodes if x.id != n.id)
+                pm_ = parent_map(f.node)
+                cur, in_finally = c, False
+                while id(cur) in pm_:
+                    par = pm_[id(cur)]
+                    if isinstance(par, ast.Try) and any(cur is s_ for s_ in par.body) and any(
+                            t.attr == "_prev_state" and isinstance(v, ast.Constant) and v.value is None
+                            for fb in par.finalbody for t, v, st in assigned_attrs(fb)):
+                        in_finally = True
+                    cur = par
+                if before or in_finally:
+                    ctx.ok("R09g", inst)
+                else:
+                    ctx.fail("R09g", f, c, inst, "the capture is cleared only after it has been applied: applying can fail half-way (a tag refuses "
+                             "a captured value), the exception is swallowed by the command's tick, the run continues un-paused with the "
+                             "capture still in place - every later Pause then skips its own capture and every later Unpause applies this one again")
+    if n_apply == 0:
+        raise AnchorError("no call of Engine._apply_state found in the control commands")
     # ---- R09e
     ass = eng.find_method("_apply_safe_state")
     aps = eng.find_method("_apply_state")
@@ -187,9 +222,19 @@ def run(ctx) -> None:
         ctx.fail("R09e", ass, lp.ast, inst, f"the register selection is {conds or norm(lp.ast.iter)}: outputs with a safe value "
                  "may be left out of the capture (and of the safe state)")
 
+    # the tag local: receiver of the safe-value write
+    tagvars = {c.func.value.id for n_ in ga.nodes for c in n_.calls() if call_attr(c) == "set_value" and isinstance(c.func, ast.Attribute)
+               and isinstance(c.func.value, ast.Name) and c.args and "safe_value" in norm(local_single_defs(ass).get(
+                   c.args[0].id, c.args[0]) if isinstance(c.args[0], ast.Name) else c.args[0])}
+
+    def capture_expr(n):
+        for c in n.calls():
+            if call_attr(c) == "append" and c.args and any(isinstance(x, ast.Name) and x.id in tagvars for x in ast.walk(c.args[0])):
+                return c.args[0]
+        return None
+
     def is_capture(n):
-        return any(call_attr(c) == "append" and c.args and isinstance(c.args[0], ast.Call) and call_attr(c.args[0]) == "as_readonly"
-                   for c in n.calls())
+        return capture_expr(n) is not None
 
     def sets_safe(n):
         return any(call_attr(c) == "set_value" and c.args and "safe_value" in norm(c.args[0]) for c in n.calls()) or any(
@@ -214,6 +259,30 @@ def run(ctx) -> None:
                  "capture holds the safe value", p_late)
     else:
         ctx.ok("R09e", inst)
+    # R09f: what is captured is the slot that is overwritten: set_value writes the tag's real `.value`; a capture through a method
+    # that reports the simulation mask (simulated_value when simulated) stores the mask, and Unpause writes it into the real value
+    ctx.rule("R09f", "the capture reads the real value that the safe state overwrites")
+    tagc = prog.cls("openpectus.lang.exec.tags:Tag")
+    for cn in cap_nodes:
+        e_ = capture_expr(cn)
+        inst = "_apply_safe_state: the captured value is the tag's real value"
+        via_mask = None
+        for c in ast.walk(e_):
+            if isinstance(c, ast.Call) and isinstance(c.func, ast.Attribute) and isinstance(c.func.value, ast.Name) and c.func.value.id in tagvars:
+                m_ = tagc.find_method(c.func.attr)
+                if m_ is not None and any(isinstance(x, ast.Attribute) and x.attr in ("simulated_value",) for x in ast.walk(m_.node)) or (
+                        m_ is not None and any(isinstance(x, ast.Call) and call_attr(x) == "get_value" for x in ast.walk(m_.node))):
+                    via_mask = c
+        reads_value = any(isinstance(x, ast.Attribute) and x.attr == "value" and isinstance(x.value, ast.Name) and x.value.id in tagvars
+                          for x in ast.walk(e_))
+        if via_mask is None and reads_value:
+            ctx.ok("R09f", inst)
+        elif via_mask is not None:
+            ctx.fail("R09f", ass, via_mask, inst, f"`{norm(via_mask)}` reports the simulated value while the tag is simulated, but the safe state "
+                     "overwrites (and Unpause later restores into) the real value: after Pause/Unpause of a simulated output the "
+                     "simulation mask has become the real output value, and 'Simulate off' drives the hardware with it")
+        else:
+            ctx.fail("R09f", ass, e_, inst, "the captured expression does not read the tag's `.value`")
     # the returned collection is built from the captured list
     cap_list = {norm(c.func.value) for n in cap_nodes for c in n.calls() if call_attr(c) == "append"}
     rets = [n for n in ga.nodes if n.kind == "stmt" and isinstance(n.ast, ast.Return)]
